@@ -22,3 +22,48 @@ Proof.
   induction l as [|[k' v'] r IH]; cbn; [reflexivity|].
   destruct (Nat.eqb k k') eqn:E; cbn; [apply Nat.eqb_eq in E; subst; reflexivity | congruence].
 Qed.
+
+(* sums over assoc lists *)
+Fixpoint asum {A} (g : A -> N) (l : list (nat * A)) : N :=
+  match l with [] => 0 | (_, v) :: r => g v + asum g r end.
+Lemma asum_app {A} (g : A -> N) l1 l2 : asum g (l1 ++ l2) = asum g l1 + asum g l2.
+Proof. induction l1 as [|[k v] r IH]; cbn [asum app]; [lia|]. rewrite IH. lia. Qed.
+Lemma asum_aupdate {A} (g : A -> N) k v v' l : alookup k l = Some v ->
+  asum g (aupdate k v' l) + g v = asum g l + g v'.
+Proof.
+  induction l as [|[k' u] r IH]; cbn [alookup aupdate asum]; [discriminate|].
+  destruct (Nat.eqb k k').
+  - intro H; inversion H; subst. cbn [asum]. lia.
+  - intro H. cbn [asum]. specialize (IH H). lia.
+Qed.
+Lemma asum_aremove {A} (g : A -> N) k v l : alookup k l = Some v -> asum g (aremove k l) + g v = asum g l.
+Proof.
+  induction l as [|[k' u] r IH]; cbn [alookup aremove asum]; [discriminate|].
+  destruct (Nat.eqb k k').
+  - intro H; inversion H; subst. lia.
+  - intro H. cbn [asum]. specialize (IH H). lia.
+Qed.
+Lemma asum_In {A} (g : A -> N) k v l : In (k, v) l -> g v <= asum g l.
+Proof.
+  induction l as [|[k' u] r IH]; cbn [In asum]; [contradiction|].
+  intros [H|H]; [inversion H; subst; lia | specialize (IH H); lia].
+Qed.
+Lemma asum_le {A} (g : A -> N) c l : (forall v, g v <= c) -> asum g l <= c * N.of_nat (length l).
+Proof. intro H. induction l as [|[k v] r IH]; cbn [asum length]; [lia|]. specialize (H v). lia. Qed.
+Lemma asum_map {A} (g : A -> N) (h : A -> A) l : (forall v, g (h v) = g v) ->
+  asum g (map (fun p => (fst p, h (snd p))) l) = asum g l.
+Proof. intro H. induction l as [|[k v] r IH]; cbn; [reflexivity|]. rewrite H, IH. reflexivity. Qed.
+
+Lemma Forall_aupdate {A} (P : nat * A -> Prop) k v l :
+  Forall P l -> P (k, v) -> Forall P (aupdate k v l).
+Proof.
+  induction l as [|[k' v'] r IH]; cbn [aupdate]; intros F Pv; [constructor|].
+  inversion F; subst. destruct (Nat.eqb k k'); constructor; auto.
+Qed.
+Lemma Forall_aremove {A} (P : nat * A -> Prop) k l : Forall P l -> Forall P (aremove k l).
+Proof.
+  induction l as [|[k' v'] r IH]; cbn [aremove]; intros F; [constructor|].
+  inversion F; subst. destruct (Nat.eqb k k'); [assumption | constructor; auto].
+Qed.
+Lemma Forall_lookup {A} (P : nat * A -> Prop) k v l : Forall P l -> alookup k l = Some v -> P (k, v).
+Proof. intros F L. rewrite Forall_forall in F. apply F. apply alookup_In. exact L. Qed.
